@@ -161,6 +161,7 @@ class Conv:
         self.vals: list = []
         self._memo: dict = {}
         self._rmemo: dict = {}
+        self.preregistered = False
 
     # ---- printing
     def sym(self, s) -> str:
@@ -170,9 +171,22 @@ class Conv:
             raise Unprintable(f"symbol of type {type(s).__name__}: {s!r}")
         key = tuple(sorted(s.assumptions0.items()))
         if key not in self.asm_ids:
+            if self.preregistered:
+                # ids must be numbered in the order of the source's sort key; a set that turns up later cannot be
+                raise Unprintable(f"assumption set not seen when the run's assumption sets were numbered: {dict(key)}")
             self.asm_ids[key] = len(self.asms)
             self.asms.append(dict(key))
         return f"{enc_name(s.name)}/{self.asm_ids[key]}"
+
+    def preregister(self, symbols) -> None:
+        """Number the assumption sets of a run in the order of `str(sorted(s.assumptions0.items()))` — the second
+        component of the sort key of rename_symbols (c9b6eb9); the Lean model compares the numbers."""
+        keys = sorted({tuple(sorted(s.assumptions0.items())) for s in symbols}, key=lambda k: str(list(k)))
+        assert not self.asms
+        for k in keys:
+            self.asm_ids[k] = len(self.asms)
+            self.asms.append(dict(k))
+        self.preregistered = True
 
     def expr(self, e) -> str:
         import sympy as sp
@@ -758,6 +772,8 @@ def invertible(info, renames) -> dict | None:
     if not rd or len(set(rd.values())) != len(rd):
         return None
     if any(a not in info["by_name"] for a in rd) or any(b in info["by_name"] or b in rd for b in rd.values()):
+        return None
+    if any(len(info["by_name"][a]) != 1 for a in rd):  # two symbols of one name are coupled by the rename: not invertible
         return None
     return {b: a for a, b in rd.items()}
 
